@@ -58,15 +58,25 @@ def s_map_into_iter(ex, st, func, args, ty):
     for k, v in model(st, args[0]):
         t = named(st, st.fresh_name('kv'), 'tuple'); st.heap[t.oid][('f', None, 0)] = k; st.heap[t.oid][('f', None, 1)] = v; items.append(t)
     return [(st, seqobj(st, 'IntoIter', items))]
+def same_key(st, a, b):
+    """keys are opaque tags (compared by name) in the symbolic scenarios and concrete byte strings in the self-check"""
+    a, b = obj(st, a), obj(st, b)
+    ha, hb = st.heap[a.oid], st.heap[b.oid]
+    if 'model' in ha and 'model' in hb:
+        va = [cval(x.t) for x in ha['model']]; vb = [cval(x.t) for x in hb['model']]
+        if None not in va and None not in vb: return va == vb
+    return origin(st, a) == origin(st, b)
+
+
 def s_map_insert(ex, st, func, args, ty):
     mp = obj(st, args[0]); k = obj(st, args[1]); items = list(model(st, mp)); name = origin(st, k)
     for i, (kk, vv) in enumerate(items):
-        if origin(st, kk) == name:          # key names are distinct concrete tags in these scenarios
+        if same_key(st, kk, k):          # key names are distinct concrete tags in these scenarios
             items[i] = (kk, args[2]); set_model(st, mp, items); return [(st, some(st, vv))]
     set_model(st, mp, items + [(k, args[2])]); return [(st, none(st))]
 def s_contains_key(ex, st, func, args, ty):
-    mp = obj(st, args[0]); name = origin(st, args[1])
-    return [(st, BoolV(z3.BoolVal(any(origin(st, kk) == name for kk, _ in model(st, mp)))))]
+    mp = obj(st, args[0])
+    return [(st, BoolV(z3.BoolVal(any(same_key(st, kk, args[1]) for kk, _ in model(st, mp)))))]
 def s_enumerate(ex, st, func, args, ty):
     it = obj(st, args[0]); items = []
     for i, x in enumerate(st.heap[it.oid]['model']):
@@ -206,9 +216,9 @@ def s_to_vec(ex, st, func, args, ty): return [(st, seqobj(st, 'Vec', model(st, a
 
 
 def s_map_get(ex, st, func, args, ty):
-    mp = obj(st, args[0]); name = origin(st, args[1])
+    mp = obj(st, args[0])
     for kk, vv in model(st, mp):
-        if origin(st, kk) == name: return [(st, some(st, slot(st, vv)))]
+        if same_key(st, kk, args[1]): return [(st, some(st, slot(st, vv)))]
     return [(st, none(st))]
 
 
@@ -645,3 +655,84 @@ def replay_kernels(ctx, cands):
         bad = r['rc'] != 0 or got != exp or (isinstance(exp, dict) and list(got.keys()) != list(exp.keys()))
         c.replay = {'argv': ['--select', expr + '=r'], 'stdin': 'null', 'expected': exp, 'actual': got, 'rc': r['rc'], 'stderr': shw(r['stderr'])[-200:]}
         c.status = 'reproduced' if bad else 'not-reproduced'
+
+
+# ---------------------------------------------------------------- translator self-check on the repository's own examples
+def heap_value(st, ex, v):
+    """python JSON value -> heap JsonValue with byte strings (the kernels' representation)"""
+    NV = ex.enums['NumberValue']
+    if v is None: return jv(st, ex, 'Null')
+    if isinstance(v, bool): return jv(st, ex, 'Boolean', BoolV(z3.BoolVal(v)))
+    if isinstance(v, int) and v >= 0: return jv(st, ex, 'Number', mk_enum(st, 'NumberValue', NV.index('Positive'), 'Positive', (BV(bv64(v)),)))
+    if isinstance(v, int): return jv(st, ex, 'Number', mk_enum(st, 'NumberValue', NV.index('Negative'), 'Negative', (BV(z3.BitVecVal(v, 64), True),)))
+    if isinstance(v, float): raise ValueError('float argument')
+    if isinstance(v, str): return jv(st, ex, 'String', seqobj(st, 'String', [BV(bv8(b)) for b in v.encode('utf-8')]))
+    if isinstance(v, list): return jv(st, ex, 'Array', seqobj(st, 'Vec', [heap_value(st, ex, x) for x in v]))
+    items = []
+    for k, x in v.items():
+        ko = seqobj(st, 'String', [BV(bv8(b)) for b in k.encode('utf-8')], origin='key:' + k); items.append((ko, heap_value(st, ex, x)))
+    return jv(st, ex, 'Object', seqobj(st, 'IndexMap', items))
+
+
+def py_value(st, ex, v):
+    v = obj(st, v); d = cval(ex.discr(st, v).t); name = ex.enums['JsonValue'][d]
+    if name == 'Null': return None
+    if name == 'Boolean': return bool(cval(st.heap[v.oid][('f', 'Boolean', 0)].t))
+    if name == 'String': return bytes(cval(b.t) for b in model(st, st.heap[v.oid][('f', 'String', 0)])).decode('utf-8')
+    if name == 'Array': return [py_value(st, ex, x) for x in model(st, st.heap[v.oid][('f', 'Array', 0)])]
+    if name == 'Object': return {bytes(cval(b.t) for b in model(st, k)).decode('utf-8'): py_value(st, ex, x) for k, x in model(st, st.heap[v.oid][('f', 'Object', 0)])}
+    nv = obj(st, st.heap[v.oid][('f', 'Number', 0)]); nd = ex.enums['NumberValue'][cval(ex.discr(st, nv).t)]
+    n = cval(st.heap[nv.oid][('f', nd, 0)].t)
+    return n - 2**64 if nd == 'Negative' and n >= 2**63 else n
+
+
+def kernel_examples(ctx, names=None):
+    """the documentation examples of the covered kernels (the repository's own test inputs: functions_definitions::tests
+    runs them) are executed *concretely* through the MIR with the same container / string models and compared with
+    their documented output - a disagreement is a bug in the models, not in jawk"""
+    import glob, os
+    run = ctx.run
+    srcs = {os.path.basename(p)[:-3]: p for p in glob.glob(os.path.join(ctx.tree.src, 'src', 'functions', '**', '*.rs'), recursive=True)}
+    n_ok = 0; n_skipped = 0
+    for name in (names or list(KERNELS)):
+        if name not in srcs or KERNELS[name][1] == 'default': continue
+        txt = open(srcs[name]).read()
+        for m in re.finditer(r'Example::new\(\)((?:\s*\.\w+\((?:[^()]|\([^()]*\))*\))+)', txt):
+            calls = re.findall(r'\.(\w+)\(\s*((?:"(?:[^"\\]|\\.)*"\s*)*)\)', m.group(1))
+            args = []; exp = 'nothing'; simple = True
+            for fn_, a in calls:
+                lit = ''.join(re.findall(r'"((?:[^"\\]|\\.)*)"', a)).encode().decode('unicode_escape') if a else None
+                if fn_ == 'add_argument': args.append(lit)
+                elif fn_ == 'expected_output': exp = lit
+                elif fn_ in ('input', 'validate_output', 'expected_json'): simple = False
+            try:
+                pargs = [json.loads(a) for a in args]
+                pexp = 'nothing' if exp == 'nothing' else json.loads(exp)
+            except Exception:
+                simple = False
+            if not simple or any(isinstance(a, float) for a in pargs if not isinstance(a, bool)): n_skipped += 1; continue
+            table = {i: (lambda st, ex, a=a: heap_value(st, ex, a)) for i, a in enumerate(pargs)}
+            ex = ctx.exec(summaries=make_summaries(table), max_visits=60)
+            try: F = ex.find(KERNELS[name][0])
+            except Broken: continue
+            st = State(); so = named(st, 'self', 'Impl'); selfref = slot(st, so, 'self*')
+            st.heap[so.oid][('f', None, 0)] = seqobj(st, 'Vec', [named(st, f'G{i}', 'Rc<dyn Get>') for i in range(len(pargs))], origin='self.0')
+            PANICS.clear()
+            try:
+                ex.new_frame(st, F, [selfref, slot(st, named(st, 'ctx', 'Context'), 'ctx*')])
+                outs = [d for d in ex.run(st) + list(PANICS) if d.status != 'infeasible']
+            except (Broken, ValueError):
+                n_skipped += 1; continue
+            if len(outs) != 1 or outs[0].status != 'returned' or outs[0].havoc:
+                if any(d.havoc for d in outs): n_skipped += 1; continue
+                raise Broken(f'kernel self-check: ({name} {args}) does not execute to exactly one path concretely ({[d.status for d in outs]})')
+            d = outs[0]; r = obj(d, d.ret)
+            try:
+                got = py_value(d, ex, d.heap[r.oid][('f', 'Some', 0)]) if cval(ex.discr(d, r).t) == 1 else 'nothing'
+            except Exception:
+                n_skipped += 1; continue
+            if got != pexp:
+                raise Broken(f'kernel self-check: the MIR execution of ({name} {" ".join(args)}) gives {got!r}, the documentation says {pexp!r}')
+            n_ok += 1; run.traces_validated += 1
+    run.notes.append(f'kernel self-check: {n_ok} documentation examples of the covered functions executed concretely through the MIR agree with their documented output ({n_skipped} examples with expressions / floats / unmodelled calls skipped)')
+    return n_ok
